@@ -181,6 +181,40 @@ def check_setsrc(crate, rep, cfg):
     parse = list(find_calls(tn, ["parsing::parser::Parser::<'a>::parse"]))
     sets = {bb for bb, t in find_calls(tn, ["errors::ReportError::set_source"])}
     key = "C12.SETSRC:Template::new"
+    if len(parse) == 1 and not sets:
+        # second idiom: `parser.parse().map_err(|e| { ..set_source(tpl_name, source).. })?` — the closure is the Err edge
+        pb, pt = parse[0]
+        tr = Tracer(tn)
+        ok, why = False, "parse() result is not handed to map_err with a closure that attaches the source"
+        for b2, t2 in tn.calls():
+            if callee_def(t2).endswith("Result::<T, E>::map_err") and t2["args"] and t2["args"][0]["k"] in ("copy", "move") and t2["args"][0]["pl"]["l"] == pt["dest"]["l"]:
+                for l in tr.operand(t2["args"][1]):
+                    if l.kind == "agg" and str(l.detail[0]) == "closure":
+                        st2 = tn.blocks[l.detail[-2]]["s"][l.detail[-1]]
+                        cb = crate.bodies.get(st2["rv"].get("def"))
+                        if cb is None:
+                            continue
+                        csets = {bb for bb, t in find_calls(cb, ["errors::ReportError::set_source"])}
+                        leaks = [x for x in cb.reach_from(0, removed_blocks=frozenset(csets)) if cb.term(x)["k"] == "return"]
+                        ctr = Tracer(cb)
+                        args_ok = bool(csets)
+                        for bb, t in find_calls(cb, ["errors::ReportError::set_source"]):
+                            for ai, want in ((1, 1), (2, 2)):
+                                ups = {int(p[1:]) for x in ctr.operand(t["args"][ai]) for p in x.projs if x.kind == "param" and x.detail == 1 and p.startswith(".") and p[1:].isdigit()}
+                                okarg = False
+                                if len(ups) == 1:
+                                    cap = st2["rv"]["ops"][next(iter(ups))]
+                                    cl = tr.operand(cap)
+                                    okarg = bool(cl) and all(x.kind == "param" and x.detail == want for x in cl)
+                                args_ok = args_ok and okarg
+                        # the mapped result is `?`-propagated (or returned)
+                        prop = any(callee_def(t3).endswith("Try::branch") and t3["args"] and t3["args"][0]["k"] in ("copy", "move") and t3["args"][0]["pl"]["l"] == t2["dest"]["l"]
+                                   for b3, t3 in tn.calls())
+                        ok = not leaks and args_ok and prop
+                        why = "a path of the map_err closure returns without set_source(tpl_name, source)" if leaks else "set_source arguments are not Template::new's (tpl_name, source)"
+        rep.add("C12.SETSRC", key, ok, tn.where(pb), "the Err of parse() goes through a map_err closure every return of which passes set_source(tpl_name, source), and the result is "
+                "`?`-propagated" + ("" if ok else " — VIOLATED: " + why))
+        return
     if len(parse) != 1 or not sets:
         rep.bad("C12.SETSRC", key, tn.where(0), "anchor-missing: parse() call / set_source call in Template::new")
         return
